@@ -641,7 +641,7 @@ class C17(AsmPlan):
         return [' '.join(str(x) for x in c)]
 
     def model_applies(self, model_recs):
-        return not any(r[:2] == [90, 5] for r in model_recs)
+        return not any(r[:2] == [90, 5] or r[:1] == [97] for r in model_recs)
 
     def judge(self, ints, spec, idx, conc, impl):
         f = fatal(impl)
